@@ -631,9 +631,12 @@ func (r *rangeCtx) rowRange(f *core.Func, loop ast.Stmt, idx ast.Expr) (lr loopR
 		if !isZeroLit(m, lo) {
 			return lr, false
 		}
-		// rows [offset, offset+N)
+		// rows [offset, offset+N): N is the range count, or the bound of a classic loop that starts at 0
 		if count != nil {
 			return loopRange{lo: offset, count: count}, true
+		}
+		if hi != nil {
+			return loopRange{lo: offset, count: hi}, true
 		}
 		return lr, false
 	}
